@@ -89,3 +89,16 @@ pub mod readme_doc_check {
 	#[doc = include_str!("../README.md")]
 	pub struct Readme;
 }
+
+/// Verification-only access to private items (enabled only under the Kani compiler).
+#[cfg(kani)]
+#[doc(hidden)]
+pub mod verif {
+	pub use crate::watchexec::verif::*;
+
+	/// The change signal that the `Config` setters notify (`Config::watch()` listens on it).
+	#[must_use]
+	pub fn config_change_signal(config: &crate::Config) -> std::sync::Arc<tokio::sync::Notify> {
+		config.change_signal.clone()
+	}
+}
